@@ -93,6 +93,7 @@ func getSwapInReceiverStates() States {
 			Events: Events{
 				Event_ActionSucceeded: State_ClaimedPreimage,
 				Event_OnRetry:         State_SwapInReceiver_ClaimSwap,
+				Event_OnTimeout:       State_SwapInReceiver_ClaimSwap,
 			},
 		},
 		State_ClaimedPreimage: {
